@@ -134,12 +134,15 @@ theorem commit_good (F : Funs M Mask) {s s0 : St M Mask} (target : Option Nat) (
             rcases mem_insertSorted hst with h' | h'
             · simp at h'; exact Or.inr h'.2
             · exact Or.inl (Or.inr ⟨k, h'⟩)
-      have b := emit_ext F tag oldEv (some dst) s0.csubs s1
+      have b := ((emit_ext F tag oldEv (some dst) (s0.csubs.filter isWide) s1).trans
+        (emitOnly_ext F id dst s0.csubs _)).mono (W' := []) (fun _ h => by simp at h) (fun _ h => h)
       have hs1n : s1.next = s0.next := by rw [← hs1]
       refine good_of_write_emit a b ?_
       intro r hr
       rcases List.mem_append.mp hr with hr | hr
-      · exact Or.inl (hold r hr)
+      · rcases List.mem_append.mp hr with hr | hr
+        · exact Or.inl (hold r hr)
+        · simp at hr; subst hr; exact Or.inr ⟨hd.1, by rw [hs1n]; exact hd.2⟩
       · simp at hr; subst hr; exact Or.inr ⟨hd.1, by rw [hs1n]; exact hd.2⟩
 
 theorem vset_good (F : Funs M Mask) (s : St M Mask) (i : Nat) (o : WOpts M Mask) (hp : o.Pure) :
@@ -236,8 +239,8 @@ theorem cdel_good (F : Funs M Mask) (s : St M Mask) (id : Nat) (o : WOpts M Mask
           rcases h with h | ⟨k, h⟩
           · exact Or.inl (Or.inl h)
           · exact Or.inl (Or.inr ⟨k, mem_erase h⟩)
-      have b := emit_ext F "R" (some old) none s.csubs s1
-      refine ⟨[old] ++ ((some old).toList ++ (none : Option Ref).toList), (a.trans b).mono (fun _ h => by simp at h) (fun _ h => h), ?_⟩
+      have b := emit_ext F "R" (some old) none (s.csubs.filter isWide) s1
+      refine ⟨[old] ++ ((some old).toList ++ (none : Option Ref).toList), ((a.trans b).subs _ _).mono (fun _ h => by simp at h) (fun _ h => h), ?_⟩
       intro r hr
       simp at hr
       subst hr
@@ -281,15 +284,15 @@ theorem step_good (F : Funs M Mask) (s : St M Mask) (op : Op M Mask) (hp : op.Pu
       | none => simp [hv] at hr
       | some v => simp [hv] at hr; subst hr; exact Or.inl (Or.inl hv)
   | vclose i => exact ⟨[], (Ext.refl s).subs _ _, fun _ h => by simp at h⟩
-  | cupd id i o => exact cupd_good F s id i o hp
-  | cdel id o => exact cdel_good F s id o
+  | cupd id i o => exact cupd_good F s (s.idmap id) i o hp
+  | cdel id o => exact cdel_good F s (s.idmap id) o
   | cget id mask =>
     simp only [step, writeSet]
-    cases hl : lookup s.coll id with
+    cases hl : lookup s.coll (s.idmap id) with
     | none => exact Good.refl s _
     | some r =>
       exact ⟨_, deliver_ext F mask s (some r), fun x hx => by
-        simp at hx; subst hx; exact Or.inl (Or.inr ⟨id, lookup_mem hl⟩)⟩
+        simp at hx; subst hx; exact Or.inl (Or.inr ⟨s.idmap id, lookup_mem hl⟩)⟩
   | clist mask => exact deliverList_good F mask s
   | cpull mask uo =>
     simp only [step, writeSet]
@@ -298,6 +301,15 @@ theorem step_good (F : Funs M Mask) (s : St M Mask) (op : Op M Mask) (hp : op.Pu
     | false =>
       obtain ⟨P, e, hP⟩ := deliverList_good F mask s
       exact ⟨P, e.subs _ _, hP⟩
+  | cpullid id mask uo =>
+    simp only [step, writeSet]
+    cases uo with
+    | true => exact ⟨[], (Ext.refl s).subs _ _, fun _ h => by simp at h⟩
+    | false =>
+      refine ⟨_, (deliver_ext F mask s (lookup s.coll (s.idmap id))).subs _ _, fun r hr => ?_⟩
+      cases hl : lookup s.coll (s.idmap id) with
+      | none => simp [hl] at hr
+      | some v => simp [hl] at hr; subst hr; exact Or.inl (Or.inr ⟨s.idmap id, lookup_mem hl⟩)
   | cclose i => exact ⟨[], (Ext.refl s).subs _ _, fun _ h => by simp at h⟩
 
 theorem writeSet_owned (s : St M Mask) (op : Op M Mask) : ∀ r, r ∈ writeSet s op → r ∈ s.owned := by
@@ -321,12 +333,60 @@ theorem commit_items (F : Funs M Mask) (s0 : St M Mask) (target : Option Nat) (t
   cases hres : res.2 with
   | some e => simp [hres, Ans.fail] at h
   | none =>
-    simp only [hres, Ans.ok, List.mem_cons] at h ⊢
-    rcases h with h | h
+    simp only [hres, Ans.ok, List.mem_cons, List.mem_append] at h ⊢
+    rcases h with h | h | h
     · cases h
+      apply (emitOnly_ext F _ dst _ _).pub_old
       apply (emit_ext F tag oldEv (some dst) _ _).pub_old
       cases target <;> simp
-    · exact emit_items F tag oldEv (some dst) _ _ x h
+    · exact (emitOnly_ext F _ dst _ _).pub_old x (emit_items F tag oldEv (some dst) _ _ x h)
+    · exact emitOnly_items F _ dst _ _ x h
+
+theorem cupd_items (F : Funs M Mask) (s : St M Mask) (id i : Nat) (o : WOpts M Mask) (x : Ref)
+    (h : Item.msg x ∈ (cupd F s id i o).2.items) : x ∈ (cupd F s id i o).1.pub := by
+  simp only [cupd] at h ⊢
+  cases hsrc : s.owned[i]? with
+  | none => simp [hsrc, Ans.malformed] at h
+  | some src =>
+    simp only [hsrc] at h ⊢
+    cases hv : F.validate s.writable o.umask (s.heap src) with
+    | some e => simp [hv, Ans.fail] at h
+    | none =>
+      simp only [hv] at h ⊢
+      cases hl : lookup s.coll id with
+      | some old =>
+        simp only [hl] at h ⊢
+        cases hx : o.expectAbsent with
+        | true => simp [hx, Ans.fail] at h
+        | false =>
+          simp only [hx, Bool.false_eq_true, if_false] at h ⊢
+          exact commit_items F _ _ _ _ _ _ x h
+      | none =>
+        simp only [hl] at h ⊢
+        cases hx : o.createIfAbsent with
+        | false => simp [hx, Ans.fail] at h
+        | true =>
+          simp only [hx, Bool.not_true, Bool.false_eq_true, if_false] at h ⊢
+          exact commit_items F _ _ _ _ _ _ x h
+
+theorem cdel_items (F : Funs M Mask) (s : St M Mask) (id : Nat) (o : WOpts M Mask) (x : Ref)
+    (h : Item.msg x ∈ (cdel F s id o).2.items) : x ∈ (cdel F s id o).1.pub := by
+  simp only [cdel] at h ⊢
+  cases hl : lookup s.coll id with
+  | none =>
+    simp only [hl] at h
+    split at h <;> simp [Ans.ok, Ans.fail] at h
+  | some old =>
+    simp only [hl] at h ⊢
+    cases hdc : delCheck F o (s.heap old) with
+    | some e => simp [hdc] at h ⊢; exact Or.inr h
+    | none =>
+      simp only [hdc, Ans.ok, List.mem_cons] at h ⊢
+      rcases h with h | h
+      · cases h
+        apply (emit_ext F "R" (some _) none _ _).pub_old
+        simp
+      · exact emit_items F "R" (some _) none _ _ x h
 
 theorem step_items (F : Funs M Mask) (s : St M Mask) (op : Op M Mask) (x : Ref)
     (h : Item.msg x ∈ (step F s op).2.items) : x ∈ (step F s op).1.pub := by
@@ -356,48 +416,8 @@ theorem step_items (F : Funs M Mask) (s : St M Mask) (op : Op M Mask) (x : Ref)
       simp only [step, Ans.ok, List.mem_singleton] at h ⊢
       exact deliver_item F mask s s.val x (by simpa using h.symm)
   | vclose i => simp [step, Ans.ok] at h
-  | cupd id i o =>
-    simp only [step, cupd] at h ⊢
-    cases hsrc : s.owned[i]? with
-    | none => simp [hsrc, Ans.malformed] at h
-    | some src =>
-      simp only [hsrc] at h ⊢
-      cases hv : F.validate s.writable o.umask (s.heap src) with
-      | some e => simp [hv, Ans.fail] at h
-      | none =>
-        simp only [hv] at h ⊢
-        cases hl : lookup s.coll id with
-        | some old =>
-          simp only [hl] at h ⊢
-          cases hx : o.expectAbsent with
-          | true => simp [hx, Ans.fail] at h
-          | false =>
-            simp only [hx, Bool.false_eq_true, if_false] at h ⊢
-            exact commit_items F _ _ _ _ _ _ x h
-        | none =>
-          simp only [hl] at h ⊢
-          cases hx : o.createIfAbsent with
-          | false => simp [hx, Ans.fail] at h
-          | true =>
-            simp only [hx, Bool.not_true, Bool.false_eq_true, if_false] at h ⊢
-            exact commit_items F _ _ _ _ _ _ x h
-  | cdel id o =>
-    simp only [step, cdel] at h ⊢
-    cases hl : lookup s.coll id with
-    | none =>
-      simp only [hl] at h
-      split at h <;> simp [Ans.ok, Ans.fail] at h
-    | some old =>
-      simp only [hl] at h ⊢
-      cases hdc : delCheck F o (s.heap old) with
-      | some e => simp [hdc] at h ⊢; exact Or.inr h
-      | none =>
-        simp only [hdc, Ans.ok, List.mem_cons] at h ⊢
-        rcases h with h | h
-        · cases h
-          apply (emit_ext F "R" (some _) none _ _).pub_old
-          simp
-        · exact emit_items F "R" (some _) none _ _ x h
+  | cupd id i o => exact cupd_items F s (s.idmap id) i o x h
+  | cdel id o => exact cdel_items F s (s.idmap id) o x h
   | cget id mask =>
     simp only [step] at h ⊢
     split at h
@@ -414,6 +434,12 @@ theorem step_items (F : Funs M Mask) (s : St M Mask) (op : Op M Mask) (x : Ref)
     | false =>
       simp only [step, Ans.ok] at h ⊢
       exact deliverList_items F mask _ s x (by simpa using h)
+  | cpullid id mask uo =>
+    cases uo with
+    | true => simp [step, Ans.ok] at h
+    | false =>
+      simp only [step, Ans.ok, List.mem_singleton] at h ⊢
+      exact deliver_item F mask s _ x (by simpa using h.symm)
   | cclose i => simp [step, Ans.ok] at h
 
 /-- one step keeps the invariant and leaves every published message where and as it was -/
@@ -472,6 +498,10 @@ theorem read_store (F : Funs M Mask) (s : St M Mask) (op : Op M Mask) (hr : op.i
     cases uo with
     | true => exact ⟨rfl, rfl⟩
     | false => exact ⟨(deliverList_store F _ _ s).1, (deliverList_store F _ _ s).2.1⟩
+  | cpullid id mask uo =>
+    cases uo with
+    | true => exact ⟨rfl, rfl⟩
+    | false => exact ⟨(deliver_store F _ s _).1, (deliver_store F _ s _).2.1⟩
   | _ => simp [Op.isRead] at hr
 
 /-- the driver's named interceptors keep the contract -/
